@@ -1049,11 +1049,11 @@ fn replay_summary_codepages() {
                 p.summary_info_mut().set_author("J\u{fc}rgen \u{e9}t\u{e9}");
                 p.flush().map_err(|e| e.to_string())?;
                 p.summary_info_mut().set_codepage(*second);
-                p.summary_info_mut().set_subject("na\u{ef}ve");
+                p.summary_info_mut().set_subject("b\u{e9}b\u{e9} \u{fc}");
                 p.into_inner().map_err(|e| e.to_string())?;
                 let q = Package::open(Cursor::new(m.snapshot())).map_err(|e| format!("reopen failed: {}", e))?;
                 let (a, s, c) = (q.summary_info().author().map(|x| x.to_string()), q.summary_info().subject().map(|x| x.to_string()), q.summary_info().codepage());
-                if a.as_deref() != Some("J\u{fc}rgen \u{e9}t\u{e9}") || s.as_deref() != Some("na\u{ef}ve") || c != *second {
+                if a.as_deref() != Some("J\u{fc}rgen \u{e9}t\u{e9}") || s.as_deref() != Some("b\u{e9}b\u{e9} \u{fc}") || c != *second {
                     return Ok(Some(format!("author {:?}, subject {:?}, code page {:?}", a, s, c)));
                 }
                 Ok(None)
@@ -1072,6 +1072,35 @@ fn replay_summary_codepages() {
                     break 'outer;
                 }
                 Ok(Ok(None)) => {}
+            }
+        }
+    }
+    // double-byte code pages with text whose encoded length differs from its character count
+    if witness.is_none() {
+        for page in [CodePage::Windows932, CodePage::Windows936, CodePage::Windows949, CodePage::Windows950, CodePage::Windows951, CodePage::Utf8] {
+            let m = Medium::new();
+            let r = quiet_catch(|| -> Result<Option<String>, String> {
+                let mut p = Package::create(PackageType::Installer, m.clone()).map_err(|e| e.to_string())?;
+                p.summary_info_mut().set_codepage(page);
+                p.summary_info_mut().set_title("\u{4e2d}\u{6587}");
+                p.summary_info_mut().set_author("\u{4e2d}");
+                p.summary_info_mut().set_subject("plain");
+                p.into_inner().map_err(|e| e.to_string())?;
+                let q = Package::open(Cursor::new(m.snapshot())).map_err(|e| format!("reopen failed: {}", e))?;
+                let got = (q.summary_info().title().map(|x| x.to_string()), q.summary_info().author().map(|x| x.to_string()), q.summary_info().subject().map(|x| x.to_string()));
+                if got != (Some("\u{4e2d}\u{6587}".to_string()), Some("\u{4e2d}".to_string()), Some("plain".to_string())) {
+                    return Ok(Some(format!("{:?}", got)));
+                }
+                Ok(None)
+            });
+            match r {
+                Err(_) => witness = Some(format!("saving CJK summary strings under {:?} panics", page)),
+                Ok(Err(e)) => witness = Some(format!("CJK summary strings under {:?}: {}", page, e)),
+                Ok(Ok(Some(w))) => witness = Some(format!("CJK summary strings under {:?} reopen as {}", page, w)),
+                Ok(Ok(None)) => {}
+            }
+            if witness.is_some() {
+                break;
             }
         }
     }
